@@ -78,7 +78,7 @@ Deliver, inside the worktree:
   SEED/NOTES.md     - what you changed and why it looks innocent, which clause / dimension it breaks, exactly what is needed for it to
                       manifest (inputs, sequence, interleaving, configuration), through which real entry point it is reached, and the
                       commands you ran with their outcome.
-Leave the change applied in the worktree when you finish. Do not commit. Keep your final answer to a five-line summary.
+Leave the change applied in the worktree when you finish. Do not commit. Never use `git stash` (the stash is shared between all worktrees of this repository and other people work in sibling worktrees): to test without your change use `git apply -R SEED/patch.diff` and `git apply SEED/patch.diff`. Keep your final answer to a five-line summary.
 """
     open('/tmp/seed/%s.prompt%s.txt' % (p, n), 'w').write(out)
     if os.path.isdir(wt):
